@@ -381,6 +381,9 @@ func c08TypedCheck(c *Ctx, cs c08TypedCase) *Failure {
 		n, _ := strconv.ParseInt(cs.Text, 10, 64)
 		setLeaf(litDoc, leaf.segs, int(n))
 		setLeaf(varDoc, leaf.segs, "${V}")
+	case "yaml-notation":
+		setLeaf(litDoc, leaf.segs, rawScalar(cs.Text))
+		setLeaf(varDoc, leaf.segs, "${V}")
 	case "string-literal":
 		// the text as a quoted scalar in a document without any `$`: the same string the substitution would leave
 		setLeaf(varDoc, leaf.segs, cs.Text)
@@ -464,6 +467,14 @@ func c08TypedCheck(c *Ctx, cs c08TypedCase) *Failure {
 		// flipping a boolean can make the fat document inconsistent for other reasons: nothing to compare
 		c.Label("typed:literal-document-rejected")
 		return nil
+	}
+	if cs.Variant == "yaml-notation" && (rv.Err != nil || !projectsEqual(rl.Project, rv.Project)) {
+		return failf("c08:yaml-number-notation-through-variable", "%s: the literal %s (YAML notation) loads; through a variable the same text gives: err=%v\n%s", cs.Path, cs.Text, rv.Err, func() string {
+			if rv.Err == nil {
+				return projectDiff(rl.Project, rv.Project)
+			}
+			return ""
+		}())
 	}
 	if rv.Err != nil {
 		return failf("c08:variable-rejected:"+cs.Kind+":"+cs.Variant, "%s (%s): the literal %s loads, the same value through a variable (%s, V=%q) fails: %v", cs.Path, cs.Kind, cs.Literal, cs.Variant, env["V"], rv.Err)
@@ -553,6 +564,10 @@ func c08TypedCases() ([]c08TypedCase, map[string]int) {
 			// values beyond 32 bits, zero and negatives: whatever the literal does, the variable does
 			for _, t := range []string{"4294967296", "9007199254740993", "0", "-1", "-4294967297"} {
 				out = append(out, c08TypedCase{Path: p, Literal: t, Kind: kind, Variant: "other-literal", Text: t})
+			}
+			// the other notations YAML has for integers (octal with a leading zero, hexadecimal, digit separators)
+			for _, t := range []string{"0440", "0x10", "1_000", "0o17"} {
+				out = append(out, c08TypedCase{Path: p, Literal: t, Kind: kind, Variant: "yaml-notation", Text: t})
 			}
 		case "float":
 			for _, t := range []string{"abc", "1.5.2", "x1"} {
